@@ -124,6 +124,23 @@ func c09Cases() []c09Case {
 			age := verifrt.Int("age")
 			return db.Scopes(func(d *gorm.DB) *gorm.DB { return d.Where(Doc{Rank: age}) }).Delete(&Doc{}), age != 0
 		}},
+		{"after-count.unscoped-delete.soft", func(db *gorm.DB) (*gorm.DB, bool) {
+			q := db.Model(&Doc{})
+			var n int64
+			q.Count(&n)
+			return q.Unscoped().Delete(&Doc{}), false
+		}},
+		{"after-find.session-update.soft", func(db *gorm.DB) (*gorm.DB, bool) {
+			q := db.Model(&Doc{})
+			var docs []Doc
+			q.Find(&docs)
+			return q.Session(&gorm.Session{}).Update("title", "x"), false
+		}},
+		{"after-empty-updates.withcontext-delete.soft", func(db *gorm.DB) (*gorm.DB, bool) {
+			q := db.Model(&Doc{})
+			q.Updates(Doc{})
+			return q.WithContext(tagCtx(2)).Delete(&Doc{}), false
+		}},
 		{"where-zero-struct.or-struct.delete", func(db *gorm.DB) (*gorm.DB, bool) {
 			a, b := verifrt.Int("a"), verifrt.Int("b")
 			return db.Where(Item{Age: a}).Or(Item{Age: b}).Delete(&Item{}), a != 0 || b != 0
@@ -149,13 +166,13 @@ func H_C09_Guard(shape int) {
 	missing := errors.Is(res.Error, gorm.ErrMissingWhereClause)
 	if !allowCfg && !allowSess && !eff {
 		verifrt.Assert(missing, "C09.not-rejected")
-		verifrt.Assert(s.Statements() == 0, "C09.executed")
+		verifrt.Assert(s.Count("EXEC") == 0, "C09.executed")
 		verifrt.Assert(len(s.Durable) == 0, "C09.changed")
 		verifrt.Assert(s.OpenTx() == 0, "C09.tx-open")
 	}
 	if eff || allowCfg || allowSess {
 		verifrt.Assert(!missing, "C09.wrongly-rejected")
 		verifrt.Assert(res.Error == nil, "C09.error")
-		verifrt.Assert(s.Statements() == 1, "C09.main-statement")
+		verifrt.Assert(s.Count("EXEC") == 1, "C09.main-statement")
 	}
 }
